@@ -379,6 +379,9 @@ func (s *MemoryAllocationStore) UnmarshalJSON(data []byte) error {
 // PoolAllocator combines an IPAllocator with an AllocationStore
 // for integrated allocation and persistence.
 type PoolAllocator struct {
+	// mu serialises Allocate/Release so that the in-memory allocator and the
+	// store are updated as one step (check, allocate, persist, roll back)
+	mu        sync.Mutex
 	allocator *IPAllocator
 	store     AllocationStore
 	poolID    string
@@ -461,6 +464,13 @@ type AllocateOptions struct {
 
 // AllocateWithOptions allocates a prefix with additional options for DHCPv6.
 func (p *PoolAllocator) AllocateWithOptions(ctx context.Context, opts AllocateOptions) (*net.IPNet, error) {
+	p.mu.Lock()
+	defer p.mu.Unlock()
+
+	// Allocate is idempotent: remember whether the subscriber already held an
+	// allocation, so that a failed store write only undoes what this call added
+	existed := p.allocator.Lookup(opts.SubscriberID) != nil
+
 	prefix, err := p.allocator.Allocate(opts.SubscriberID)
 	if err != nil {
 		return nil, err
@@ -480,7 +490,9 @@ func (p *PoolAllocator) AllocateWithOptions(ctx context.Context, opts AllocateOp
 
 	if err := p.store.SaveAllocation(ctx, record); err != nil {
 		// Rollback allocator state
-		p.allocator.Release(opts.SubscriberID)
+		if !existed {
+			p.allocator.Release(opts.SubscriberID)
+		}
 		return nil, fmt.Errorf("failed to persist allocation: %w", err)
 	}
 
@@ -489,11 +501,19 @@ func (p *PoolAllocator) AllocateWithOptions(ctx context.Context, opts AllocateOp
 
 // Release releases a subscriber's allocation and removes from store.
 func (p *PoolAllocator) Release(ctx context.Context, subscriberID string) error {
-	if err := p.allocator.Release(subscriberID); err != nil {
-		return err
+	p.mu.Lock()
+	defer p.mu.Unlock()
+
+	// Remove the durable record first: if the store refuses, memory and store
+	// still agree and the caller can retry. A subscriber without an allocation
+	// takes the allocator's own "not allocated" error path.
+	if p.allocator.Lookup(subscriberID) != nil {
+		if err := p.store.RemoveAllocation(ctx, p.poolID, subscriberID); err != nil {
+			return err
+		}
 	}
 
-	return p.store.RemoveAllocation(ctx, p.poolID, subscriberID)
+	return p.allocator.Release(subscriberID)
 }
 
 // Lookup returns the allocation for a subscriber.
